@@ -32,8 +32,8 @@ RULE = (
 TOLERANCES = {"everything": "bitwise / exact equality (OpenCV's RNG re-seeded before each colour-correction evaluation)"}
 ASSUMPTIONS = ["files are written to a per-run temporary directory that is removed afterwards", "lossless formats: PNG (8 bit) and TIFF (16 bit), as documented in OpticalImage.write"]
 FLOORS = {
-    "quick": {"npz_roundtrip": 250, "bytes_roundtrip": 150, "optical_write_read": 60, "correction_roundtrip": 150, "estimator_regions_compared": 100, "correction_path_reused": 200, "caller_config_edited_after_construction": 40, "curvature_crop_points_typed": 6, "curvature_resize_factor": 20, "curvature_interpolation_order": 20},
-    "thorough": {"npz_roundtrip": 3000, "bytes_roundtrip": 1800, "optical_write_read": 700, "correction_roundtrip": 1700, "estimator_regions_compared": 1000, "correction_path_reused": 2000, "caller_config_edited_after_construction": 400, "curvature_crop_points_typed": 60, "curvature_resize_factor": 200, "curvature_interpolation_order": 200},
+    "quick": {"npz_roundtrip": 250, "bytes_roundtrip": 150, "optical_write_read": 60, "correction_roundtrip": 150, "estimator_regions_compared": 100, "correction_path_reused": 200, "caller_config_edited_after_construction": 40, "curvature_crop_points_typed": 6, "curvature_resize_factor": 20, "curvature_interpolation_order": 20, "optical_image_converted_before_saving": 10, "date_set_after_construction": 10},
+    "thorough": {"npz_roundtrip": 3000, "bytes_roundtrip": 1800, "optical_write_read": 700, "correction_roundtrip": 1700, "estimator_regions_compared": 1000, "correction_path_reused": 2000, "caller_config_edited_after_construction": 400, "curvature_crop_points_typed": 60, "curvature_resize_factor": 200, "curvature_interpolation_order": 200, "optical_image_converted_before_saving": 100, "date_set_after_construction": 100},
 }
 SHARD_TIMEOUT = {"quick": 1500, "thorough": 7200}
 
@@ -82,6 +82,23 @@ def run_shard(spec, R):
         if cls is darsia.OpticalImage and rng.random() < 0.5:
             img.color_space = str(rng.choice(["BGR", "HSV"]))
         case = {**desc, "class": cls.__name__, "name": name}
+        if cls is darsia.OpticalImage and dim == 2 and np.dtype(dtype) in (np.dtype(np.uint8), np.dtype(np.float32)) and n % 3 == 0:
+            # a colour space reached through the library's own conversion
+            target = ["HLS", "LAB", "HSV", "BGR"][(n // 3) % 4]
+            img.color_space = "RGB"
+            try:
+                img.to_trichromatic(target)
+                case["converted_to"] = target
+                R.count("optical_image_converted_before_saving")
+            except Exception:
+                pass
+        if time_kind == "none" and not series and n % 4 == 1:
+            # the date becomes known only after construction
+            from datetime import datetime as _dt
+
+            img.update_metadata(date=_dt(2024, 2, 29, 13, 14, 15, 160000 + n))
+            case["date_set_after_construction"] = True
+            R.count("date_set_after_construction")
         before = snap(img)
         meta0 = img.metadata()
         path = tmp / f"im{n % 3}.npz"  # file names are reused (overwritten) within a shard
